@@ -429,6 +429,27 @@ func main() {
 			if got := modelOf(out).canon(); got != want.canon() {
 				k.Violate("inject-extract-mismatch", "", fmt.Sprintf("got  %s\nwant %s", got, want.canon()), nil)
 			}
+			// the receiving side usually has a context of its own: what the carrier holds replaces whatever
+			// baggage that context carried (extraction is not a merge)
+			if len(want) > 0 {
+				staleM, _ := baggage.NewMemberRaw("stale-local-key", "left over")
+				stale, _ := baggage.New(staleM)
+				for key := range want {
+					if m2, e2 := baggage.NewMemberRaw(key, "stale value of a key the carrier also has"); e2 == nil {
+						if s2, e3 := stale.SetMember(m2); e3 == nil {
+							stale = s2
+						}
+					}
+					break
+				}
+				for _, parent := range []baggage.Baggage{stale, b} {
+					out2 := baggage.FromContext(prop.Extract(baggage.ContextWithBaggage(context.Background(), parent), car))
+					if got := modelOf(out2).canon(); got != want.canon() {
+						k.Violate("inject-extract-mismatch", "extracted into a context that already carries baggage", fmt.Sprintf("got  %s\nwant %s", got, want.canon()), nil)
+					}
+				}
+				k.C.Count("roundtrips_extracted_over_existing_baggage", 1)
+			}
 			k.C.Count("roundtrips", 1)
 			k.C.Count("escaped_byte_classes", int64(len(escapes)))
 			if len(want) >= 179 {
